@@ -672,8 +672,13 @@ def run_lex(case):
             viol.append(f"raise: Literal({s!r}, datatype=xsd:{dt}) / normalize() raises {raised} on a valid lexical form")
     else:
         r_b1, e_b1 = _eqres(l1, b1)
+        # the Python object rdflib built, where the XSD value is one CPython's date / time / datetime holds exactly
+        # (the Lean side prints the same fields from the *specification's* reading of the lexical form)
+        xsdv = "-"
+        if valid and dt in DATEY and representable(dt, px[1]) in (None, "datetz") and in_fragment(dt, s):
+            xsdv = canon(l0.value)
         line = (f"lex|{ill(l0)}|{canon(l0.value)}|{int(valid_for(dt, str(l1)))}|{canon(b1.value)}|{int(str(n1) == str(l1))}"
-                f"|{int(str(n2) == str(n1))}|{ill(l1)}|{canon(l1.value)}|{e_b1}")
+                f"|{int(str(n2) == str(n1))}|{ill(l1)}|{canon(l1.value)}|{e_b1}|{xsdv}")
         if SPELL:
             line += "|" + "|".join(cps_str(str(x)) for x in (l0, l1, n1, n2))
         obs = [line]
